@@ -30,3 +30,30 @@ Lemma late_mark_invisible_on_short_tunnels :
   let h := [HReg (Validate kL); HConnect 1 kL; HClose 1; HReg (Advance eleven_min); HReg Sweep] in
   h_reg (hrun_late h) = h_reg (hrun h).
 Proof. vm_compute. reflexivity. Qed.
+
+(* In general: on histories in which every tunnel is closed at once (no time passes, nothing happens between a
+   connection and its close) the two handlers cannot be told apart - which is why no history with an abstract,
+   instantaneous "connect" can expose the close-time variant. *)
+Inductive closed_at_once : list hev -> Prop :=
+| cao_nil : closed_at_once []
+| cao_reg o h : closed_at_once h -> closed_at_once (HReg o :: h)
+| cao_conn c k h : closed_at_once h -> closed_at_once (HConnect c k :: HClose c :: h).
+
+Lemma late_agrees_when_closed_at_once h : closed_at_once h ->
+  forall x y, h_reg x = h_reg y -> h_open y = [] ->
+  h_reg (fold_left hstep h x) = h_reg (fold_left hstep_late h y) /\ h_open (fold_left hstep_late h y) = [].
+Proof.
+  induction 1 as [|o h _ IH|c k h _ IH]; intros x y E O.
+  - split; assumption.
+  - cbn [fold_left]. apply IH; cbn [hstep hstep_late h_reg h_open]; [rewrite E; reflexivity | exact O].
+  - cbn [fold_left]. apply IH.
+    + cbn [hstep hstep_late]. rewrite E. destruct (matches (h_reg y) k);
+        cbn [h_reg h_open filter fst snd mark_all fold_left]; rewrite ?O; cbn [filter fst snd mark_all fold_left];
+        rewrite ?N.eqb_refl; cbn [filter fst snd mark_all fold_left]; congruence.
+    + cbn [hstep_late]. destruct (matches (h_reg y) k);
+        cbn [h_open close_conn filter fst negb]; rewrite ?O; cbn [close_conn filter fst negb];
+        rewrite ?N.eqb_refl; reflexivity.
+Qed.
+
+Lemma late_mark_invisible_when_closed_at_once h : closed_at_once h -> h_reg (hrun_late h) = h_reg (hrun h).
+Proof. intros C. symmetry. apply (late_agrees_when_closed_at_once h C hinit hinit); reflexivity. Qed.
